@@ -72,6 +72,9 @@ fn contexts(w: i32, h: i32, quick: bool) -> Vec<(Vec<Op>, Vec<Op>)> {
         vec![vec![], vec![Op::PushClipRect(1, 0, w, h), Op::PushLayer(0.5, BlendMode::SrcOver)], vec![Op::PushLayer(1.0, BlendMode::Multiply), Op::PushClipRect(0, 1, w - 1, h), Op::PushLayer(0.75, BlendMode::Xor)]]
     };
     let mut out = Vec::new();
+    // an outer clip popped while the layer pushed under it is still open (the two stacks are independent)
+    out.push((vec![Op::PushClipRect(1, 1, w - 1, h), Op::PushLayer(0.5, BlendMode::SrcOver), Op::PopClip], vec![Op::PopLayer]));
+    out.push((vec![Op::PushClipRect(1, 0, w, h - 1), Op::PushLayer(1.0, BlendMode::SrcOver), Op::PopClip, Op::PushClip(tri.clone())], vec![Op::PopLayer, Op::PopClip]));
     for c in &clips {
         for l in &layers {
             // two orders: clip context outside the layers, and inside them
